@@ -111,6 +111,13 @@ func verifGate(c *Connection) {
 	}
 }
 
+// verifPreWrite is a schedule gate before Connection.write takes the writer slot.
+func verifPreWrite(c *Connection) {
+	if g := VerifHook.Gate; g != nil {
+		g(c, "write:acquire")
+	}
+}
+
 // verifEnter runs under stateMu before f(s).
 func verifEnter(c *Connection) *verifSection {
 	if VerifHook.Emit == nil {
